@@ -92,6 +92,28 @@ def handle (op : String) (a : Json) : Option R :=
       pure (jList (boxes.map (fun bx =>
         let bx := if pad then mrcPadBox bx sh else bx
         jArrRes (if raw then readSubset f hdr sh b bx else loadSubset f hdr sh b bx))))
+  | "c08.emWrite" => some do
+      -- what `_save_em` writes for a density held as `dtype`: the dtype on disk, its type code and item size
+      let dt ← getStr a "dtype"
+      let w := emWriteDtype dt
+      pure (Json.mkObj [("dtype", jStr w), ("code", jNat (emWriteCode dt)), ("b", jNat ((dtypeSize w).getD 0))])
+  | "c08.crsSubsets" => some do
+      -- MRC file with axis permutation `crs`: one file, many boxes given in the caller's axes
+      let f ← fromHex (← getStr a "file")
+      let hdr ← getNat a "header"; let sh ← getNatList a "shape"; let b ← getNat a "b"
+      let crs ← getNatList a "crs"
+      let boxes ← (← getArr a "boxes").toList.mapM (fun bj => do
+        let l ← (← bj.getArr?).toList.mapM (fun x => do intList (← x.getArr?))
+        l.mapM (fun p => match p with
+          | [s, e] => pure (s, e)
+          | _ => throw "BadArg:box"))
+      let old := (getBool a "old").toOption.getD false
+      pure (jList (boxes.map (fun bx =>
+        jArrRes (if old then mrcLoadSubsetCrsOld f hdr sh b crs bx else mrcLoadSubsetCrs f hdr sh b crs bx))))
+  | "c08.transpose" => some do
+      let sh ← getNatList a "shape"; let d ← getNatList a "data"; let p ← getNatList a "perm"
+      let r := transposeArr ⟨sh, d.toArray⟩ p
+      pure (Json.mkObj [("shape", jNats r.shape), ("data", jNats r.toList)])
   | "c08.slice" => some do
       let sh ← getNatList a "shape"; let d ← getNatList a "data"; let bx ← getBox a "box"
       let r := sliceArr ⟨sh, d.toArray⟩ bx
